@@ -42,6 +42,13 @@
 #define H3M_SSID_OK(x) ((x) < 2 || (x) == BAD_SSID)
 
 #ifdef SSW_CBMC
+/* entering an HMM: exactly the entry state's score / back-pointer and the activity frame change (used as an assumed
+ * contract by the word-arc groups of C01; proved here on the real body) */
+void hmm_enter(hmm_t *h, int32 score, int32 histid, int frame)
+__CPROVER_requires(__CPROVER_is_fresh(h, sizeof(*h)))
+__CPROVER_assigns(h->score[0], h->history[0], h->frame)
+__CPROVER_ensures(h->score[0] == score && h->history[0] == histid && h->frame == frame)
+;
 #define H3_TP(i, j) (hmm->ctx->tp[0][0][(i)*4 + (j)])
 #define H3_SEN(i) (hmm->ctx->senscore[hmm->senid[i]])
 /* ghost snapshot of s_i = score_i - senscore_i in the pre-state (tied in requires; __CPROVER_old cannot track it) */
@@ -76,6 +83,11 @@ __CPROVER_ensures(P3_HIST1(hmm->history[1], H3_H(0), H3_H(1), H3_S(0), H3_S(1), 
 __CPROVER_ensures(P3_HIST2(hmm->history[2], H3_H(0), H3_H(1), H3_H(2), H3_S(0), H3_S(1), H3_S(2), H3_TP(0, 2), H3_TP(1, 2), H3_TP(2, 2)))
 __CPROVER_ensures(IMP(__CPROVER_old(hmm->score[1]) != HW,
     P3_HISTOUT(hmm->out_history, H3_H(1), H3_H(2), H3_S(1), H3_S(2), H3_TP(1, 3), H3_TP(2, 3))))
+/* closure of the back-pointer slots (what carries the history-source invariant HIST_SRC of the word-arc groups through
+ * an evaluation): every slot afterwards holds a value some slot of this HMM held before */
+__CPROVER_ensures(hmm->history[1] == H3_H(0) || hmm->history[1] == H3_H(1))
+__CPROVER_ensures(hmm->history[2] == H3_H(0) || hmm->history[2] == H3_H(1) || hmm->history[2] == H3_H(2))
+__CPROVER_ensures(hmm->out_history == H3_H(1) || hmm->out_history == H3_H(2) || hmm->out_history == __CPROVER_old(hmm->out_history))
 /* WF_HMM re-established: scores never wrap, stay clamped in [WORST_SCORE, 0] */
 __CPROVER_ensures(hmm->score[0] >= HW && hmm->score[0] <= 0 && hmm->score[1] >= HW && hmm->score[1] <= 0 && hmm->score[2] >= HW && hmm->score[2] <= 0)
 __CPROVER_ensures(hmm->out_score >= HW && hmm->out_score <= 0)
